@@ -277,3 +277,104 @@ Example C01_numpy_example :
   NumpyLine.parse_numpy_unit (NumpyLine.emit_numpy_param true true (s2l "size") (Some (s2l "Optional[int]")) (Some (s2l "how big")))
   = NumpyLine.NEntry (s2l "size") (Some (s2l "Optional[int]")) (Some (s2l "how big")).
 Proof. exact NumpyLineProofs.numpy_example. Qed.
+
+(* ---- one ReST token line at a time (Model/RestDoc.v): the value of a ":return:" / ":rtype:" / ":param name:" line is EVERYTHING after
+   the colon that closes the key, further colons in the prose included ("exit status: 0 on success" stays whole) -- for every text
+   and every parser state. *)
+From CDD Require RestLineProofs.
+Theorem C01_rest_return_line_value : forall s body,
+  RestDoc.st_ret (RestDoc.parse_token_line s (s2l ":return:" ++ body))
+  = Some (RestDoc.set_doc (match RestDoc.st_ret s with Some e => e | None => RestDoc.empty_entry end) (strip body)).
+Proof. exact RestLineProofs.return_line_value. Qed.
+Print Assumptions C01_rest_return_line_value.
+Theorem C01_rest_param_line_value : forall s n body, RestDocProofs.name_ok n = true ->
+  RestDoc.st_cur (RestDoc.parse_token_line s (s2l ":param " ++ n ++ RestDoc.COLON :: body)) = Some (n, RestDoc.set_doc (RestDocProofs.cur_entry s n) (strip body)).
+Proof. exact RestLineProofs.param_line_value. Qed.
+Print Assumptions C01_rest_param_line_value.
+Example C01_rest_return_line_with_colons :
+  RestDoc.st_ret (RestDoc.parse_token_line RestDoc.init_state (s2l ":return: exit status: 0 on success"))
+  = Some {| RestDoc.pe_doc := Some (s2l "exit status: 0 on success"); RestDoc.pe_typ := None |}.
+Proof. exact RestLineProofs.return_line_with_colons. Qed.
+
+(* ---- a WHOLE Google-style docstring (Model/GoogleHead.v: where the prose ends; Model/GoogleScan.v: the line scanner that groups the
+   lines after "Args:" into units by indentation; Model/GoogleLine.v: what a unit says -- each compared with the code each run, the
+   composition through parse_docstring).  For EVERY colon-free header (one paragraph or several) that is not blank at either end,
+   whatever blank text surrounds it, and EVERY non-empty list of one-line entries of the domain of C01_google_params_roundtrip: the
+   text "<header><blank>Args:" followed by one line per entry is read back as that header and exactly those entries, in order. *)
+From CDD Require GoogleHead GoogleScan GoogleScanProofs.
+Theorem C01_google_docstring_roundtrip : forall (pre H sep : str) (es : list GoogleLineProofs.entry),
+  RestDocProofs.blank pre = true -> RestDocProofs.head_ok H = true -> RestDocProofs.head_ok (rev H) = true ->
+  GoogleLineProofs.lacks GoogleLine.GCOLON H = true -> RestDocProofs.blank sep = true ->
+  es <> [] -> forallb GoogleScanProofs.entry_ok1 es = true ->
+  GoogleScan.google_docstring (pre ++ H ++ sep ++ GoogleHead.ARGS ++ [NL] ++ join [NL] (map GoogleLineProofs.emit_entry es))
+  = (H, GoogleLine.PList (map GoogleLineProofs.read_entry es)).
+Proof. exact GoogleScanProofs.google_docstring_roundtrip. Qed.
+Print Assumptions C01_google_docstring_roundtrip.
+Example C01_google_docstring_example :
+  GoogleScan.google_docstring ([NL] ++ s2l "Load the dataset." ++ [NL; NL] ++ s2l "Rows are kept in order." ++ [NL; NL] ++ s2l "Args:" ++ [NL]
+                    ++ s2l "  name (str): dataset to load" ++ [NL] ++ s2l "  batch_size (int): " ++ [NL] ++ s2l "  shuffle: randomise the row order")
+  = (s2l "Load the dataset." ++ [NL; NL] ++ s2l "Rows are kept in order.",
+     GoogleLine.PList [(s2l "name", Some (s2l "str"), s2l "dataset to load"); (s2l "batch_size", Some (s2l "int"), []); (s2l "shuffle", None, s2l "randomise the row order")]).
+Proof. exact GoogleScanProofs.google_docstring_example. Qed.
+
+(* ---- a WHOLE NumPy-style docstring (Model/NumpyScan.v: where the prose ends; the line scanner of Model/GoogleScan.v; the unit reader
+   of Model/NumpyLine.v; the composition compared with parse_docstring each run).  For EVERY header without "-" that is not blank at
+   either end, whatever blank text surrounds it, and EVERY non-empty list of typed one-line entries of the domain of
+   C01_numpy_params_roundtrip: "<header><blank>Parameters / ----------" followed by "name : typ" and the indented description of each
+   entry is read back as that header and exactly those entries, in order. *)
+From CDD Require NumpyScan NumpyScanProofs.
+Theorem C01_numpy_docstring_roundtrip : forall (pre H sep : str) (es : list NumpyLineProofs.nentry),
+  RestDocProofs.blank pre = true -> RestDocProofs.head_ok H = true -> RestDocProofs.head_ok (rev H) = true ->
+  GoogleLineProofs.lacks NumpyScanProofs.DASH H = true -> RestDocProofs.blank sep = true ->
+  es <> [] -> forallb NumpyScanProofs.nentry_ok1 es = true ->
+  NumpyScan.numpy_docstring (pre ++ H ++ sep ++ NumpyScan.NPARAMS ++ [NL] ++ join [NL] (concat (map NumpyLineProofs.emit_nentry es)))
+  = (H, map NumpyLineProofs.read_nentry es).
+Proof. exact NumpyScanProofs.numpy_docstring_roundtrip. Qed.
+Print Assumptions C01_numpy_docstring_roundtrip.
+Example C01_numpy_docstring_example :
+  NumpyScan.numpy_docstring ([NL] ++ s2l "Load the dataset." ++ [NL; NL] ++ s2l "Parameters" ++ [NL] ++ s2l "----------" ++ [NL]
+                   ++ s2l "name : str" ++ [NL] ++ s2l "    dataset to load" ++ [NL] ++ s2l "batch_size : int")
+  = (s2l "Load the dataset.", [(s2l "name", Some (s2l "str"), Some (s2l "dataset to load")); (s2l "batch_size", Some (s2l "int"), Some [])]).
+Proof. exact NumpyScanProofs.numpy_docstring_example. Qed.
+
+(* ---- the Google ROUND TRIP as text (Model/GoogleEmit.v: cdd/docstring/emit.py:docstring for the Google style -- "Args:" and one line per
+   parameter joined to the description by header_args_footer_to_str -- compared with the real emitter each run; the parse side is
+   C01_google_docstring_roundtrip with a line break after the last parameter).  For EVERY clean description (one paragraph, no
+   colon, not blank at either end) and EVERY non-empty list of documented one-line entries of the domain: the text the emitter writes
+   is given in closed form (C01_google_emit_text) and parsing it yields that description and exactly those entries. *)
+From CDD Require GoogleEmit GoogleEmitProofs.
+Theorem C01_google_emit_text : forall doc es, RestDocProofs.clean doc = true -> es <> [] ->
+  forallb GoogleScanProofs.entry_ok1 es = true -> forallb GoogleEmitProofs.documented es = true ->
+  GoogleEmit.emit_google doc es = doc ++ [NL; NL] ++ GoogleHead.ARGS ++ [NL] ++ join [NL] (map GoogleLineProofs.emit_entry es) ++ [NL].
+Proof. exact GoogleEmitProofs.emit_google_text. Qed.
+Print Assumptions C01_google_emit_text.
+Theorem C01_google_emit_parse_roundtrip : forall doc es, RestDocProofs.clean doc = true -> es <> [] ->
+  forallb GoogleScanProofs.entry_ok1 es = true -> forallb GoogleEmitProofs.documented es = true ->
+  GoogleScan.google_docstring (GoogleEmit.emit_google doc es) = (doc, GoogleLine.PList (map GoogleLineProofs.read_entry es)).
+Proof. exact GoogleEmitProofs.google_emit_parse_roundtrip. Qed.
+Print Assumptions C01_google_emit_parse_roundtrip.
+Example C01_google_emit_example :
+  GoogleEmit.emit_google (s2l "Load the dataset.") [(s2l "name", Some (s2l "str"), Some (s2l "dataset to load")); (s2l "shuffle", None, Some (s2l "randomise the row order"))]
+  = s2l "Load the dataset." ++ [NL; NL] ++ s2l "Args:" ++ [NL] ++ s2l "  name (str): dataset to load" ++ [NL] ++ s2l "  shuffle: randomise the row order" ++ [NL].
+Proof. exact GoogleEmitProofs.google_emit_example. Qed.
+
+(* ---- the NumPy ROUND TRIP as text (Model/NumpyEmit.v, compared with the real emitter each run): for EVERY clean description without
+   "-" and EVERY non-empty list of typed one-line entries whose last written character is visible, the text the emitter writes is
+   given in closed form and parsing it yields that description and exactly those entries. *)
+From CDD Require NumpyEmit NumpyEmitProofs.
+Theorem C01_numpy_emit_text : forall doc es, RestDocProofs.clean doc = true -> es <> [] ->
+  forallb NumpyScanProofs.nentry_ok1 es = true -> forallb NumpyEmitProofs.ends_visible es = true ->
+  NumpyEmit.emit_numpy doc (map NumpyEmitProofs.as_entry es)
+  = doc ++ [NL; NL] ++ NumpyScan.NPARAMS ++ [NL] ++ join [NL] (concat (map NumpyLineProofs.emit_nentry es)) ++ [NL].
+Proof. exact NumpyEmitProofs.emit_numpy_text. Qed.
+Print Assumptions C01_numpy_emit_text.
+Theorem C01_numpy_emit_parse_roundtrip : forall doc es, RestDocProofs.clean doc = true -> GoogleLineProofs.lacks NumpyScanProofs.DASH doc = true -> es <> [] ->
+  forallb NumpyScanProofs.nentry_ok1 es = true -> forallb NumpyEmitProofs.ends_visible es = true ->
+  NumpyScan.numpy_docstring (NumpyEmit.emit_numpy doc (map NumpyEmitProofs.as_entry es)) = (doc, map NumpyLineProofs.read_nentry es).
+Proof. exact NumpyEmitProofs.numpy_emit_parse_roundtrip. Qed.
+Print Assumptions C01_numpy_emit_parse_roundtrip.
+Example C01_numpy_emit_example :
+  NumpyEmit.emit_numpy (s2l "Load the dataset.") [(s2l "name", Some (s2l "str"), Some (s2l "dataset to load")); (s2l "batch_size", Some (s2l "int"), None)]
+  = s2l "Load the dataset." ++ [NL; NL] ++ s2l "Parameters" ++ [NL] ++ s2l "----------" ++ [NL] ++ s2l "name : str" ++ [NL] ++ s2l "    dataset to load"
+    ++ [NL] ++ s2l "batch_size : int" ++ [NL].
+Proof. exact NumpyEmitProofs.numpy_emit_example. Qed.
